@@ -7,7 +7,8 @@ open RedunModel RedunModel.EvalCore
 /-
 Driver for C01 / C12 / C38 (EvalCore).
 
-request   (eval i<fuel> <expr>)
+request   (eval i<fuel> <expr>)                                   empty context
+request   (evalc i<fuel> ((s<var> <expr>)*) ((s<var> <expr>)*) <expr>)   job context (effective), config context
 reply     (outs <out>*)          <out> ::= (ok <expr>) | (err s<cls> s<msg>) | unk
 request   (checkcache none|cse|backend full|shallow <b> <b> <b> <f> <f> <f>)     allowed: cse single ultimate;
                                                          facts: cse ultimate single, <f> ::= N | T | F  (found? is error?)
@@ -20,7 +21,8 @@ reply     hit | miss
          | (P s<name> (<expr>*) ((s<key> <expr>)*)) | (TH <expr>) | (V <expr>)
          | (L <expr>*) | (U <expr>*) | (S <expr>*) | (NT s<cls> <expr>*) | (DC s<cls> <expr>*)
          | (D (<expr> <expr>)*)
-         | (call s<name> (<expr>*) ((s<key> <expr>)*)) | (op s<name> <expr>*)
+         | (call s<name> (<expr>*) ((s<key> <expr>)*) [((s<var> <expr>)*)]) | (op s<name> <expr>*)     4th: update_context override
+         | (getctx s<var> <expr>)
          | (cond <expr>*) | (seq <expr>*) | (catch <expr> (<expr> <expr>)*)
          | (catchall <expr> <expr> <expr>) | (map <expr> <expr>) | (tags <expr> <expr> <expr> <expr>)
          | (fork <expr>) | (join <expr>) | (subrun <expr> T|F)
@@ -67,7 +69,17 @@ mutual
       let n ← strOfAtom n
       let args ← toExprs args
       let (kn, kv) ← toKws kws
-      pure (.call n args kn kv)
+      pure (.call n args kn kv [] [])
+    | .list [.atom "call", .atom n, .list args, .list kws, .list ovs] => do
+      let n ← strOfAtom n
+      let args ← toExprs args
+      let (kn, kv) ← toKws kws
+      let (on, ov) ← toKws ovs
+      pure (.call n args kn kv on ov)
+    | .list [.atom "getctx", .atom k, d] => do
+      let k ← strOfAtom k
+      let d ← toExpr d
+      pure (.getCtx k d)
     | .list (.atom "op" :: .atom n :: args) => do
       let n ← strOfAtom n
       let args ← toExprs args
@@ -142,7 +154,10 @@ mutual
     | .cont (.ntuple c) xs => "(NT " ++ atomOfStr c ++ sp xs ++ ")"
     | .cont (.dcls c) xs => "(DC " ++ atomOfStr c ++ sp xs ++ ")"
     | .dict ks vs => "(D" ++ showPairs ks vs ++ ")"
-    | .call n args kn kv => "(call " ++ atomOfStr n ++ " (" ++ showExprs args ++ ") (" ++ showKws kn kv ++ "))"
+    | .call n args kn kv on ov =>
+      "(call " ++ atomOfStr n ++ " (" ++ showExprs args ++ ") (" ++ showKws kn kv ++ ")" ++
+        (if on.isEmpty then ")" else " (" ++ showKws on ov ++ "))")
+    | .getCtx k d => "(getctx " ++ atomOfStr k ++ " " ++ showExpr d ++ ")"
     | .op n args => "(op " ++ atomOfStr n ++ sp args ++ ")"
     | .cond xs => "(cond" ++ sp xs ++ ")"
     | .seq xs => "(seq" ++ sp xs ++ ")"
@@ -244,9 +259,16 @@ def step (_ : Unit) (line : String) : Unit × String :=
   | some [.list [.atom "eval", .atom f, x]] =>
     match natOfAtom f, toExpr x with
     | some fuel, some e =>
-      let outs := evalAll EvalLib.lib fuel e
+      let outs := evalAll EvalLib.lib fuel Ctx.empty e
       ((), "(outs" ++ String.join (outs.map fun o => " " ++ showOut o) ++ ")")
     | _, _ => ((), "bad-value")
+  | some [.list [.atom "evalc", .atom f, .list cs, .list cfgs, x]] =>
+    match natOfAtom f, toKws cs, toKws cfgs, toExpr x with
+    | some fuel, some (cn, cv), some (gn, gv), some e =>
+      let lib : Lib := { EvalLib.lib with config := kvLookup gn gv }
+      let outs := evalAll lib fuel (kvLookup cn cv) e
+      ((), "(outs" ++ String.join (outs.map fun o => " " ++ showOut o) ++ ")")
+    | _, _, _, _ => ((), "bad-value")
   | some [.list (.atom "checkcache" :: rest)] =>
     match cacheOp (.atom "checkcache" :: rest) with
     | some r => ((), r)
